@@ -941,24 +941,24 @@ fn rng_pick_ref<'a>(rng: &mut Rng, v: &[&'a Tree]) -> &'a Tree {
 
 /// documents whose element counts / payload lengths cross 2^8 and 2^16, so that a narrowing cast
 /// or a one-byte length somewhere in a walker becomes visible
-pub fn big_doc(rng: &mut Rng) -> Tree {
+pub fn big_doc(rng: &mut Rng, huge: bool) -> Tree {
     let n_small = *rng.pick(&[255usize, 256, 257, 300]);
-    let n = if rng.chance(1, 6) { *rng.pick(&[65_535usize, 65_536, 65_540]) } else { n_small };
+    let n = if huge && rng.chance(1, 4) { *rng.pick(&[65_535usize, 65_536, 65_540]) } else { n_small };
     match rng.below(6) {
         0 => Tree::Arr((0..n).map(|i| if i % 7 == 0 { Tree::Str(format!("s{}", i)) } else { Tree::Num(Num::U(i as u64)) }).collect()),
-        1 => Tree::Obj((0..n.min(70_000)).map(|i| (format!("k{:06}", i), if i % 5 == 0 { Tree::Null } else { Tree::Num(Num::I(-(i as i64))) })).collect()),
+        1 => Tree::obj_from((0..n.min(70_000)).map(|i| (format!("k{:06}", i), if i % 5 == 0 { Tree::Null } else { Tree::Num(Num::I(-(i as i64))) })).collect()),
         2 => {
             let s: String = (0..n).map(|i| (b'a' + (i % 26) as u8) as char).collect();
             Tree::Arr(vec![Tree::Bool(true), Tree::Str(s), Tree::Num(Num::U(7)), Tree::Arr(vec![Tree::Null])])
         }
         3 => {
             let k: String = (0..n_small).map(|i| (b'A' + (i % 26) as u8) as char).collect();
-            Tree::Obj(vec![("a".into(), Tree::Num(Num::U(1))), (k, Tree::Arr(vec![Tree::Num(Num::U(2)), Tree::Str("x".into())])), ("z".into(), Tree::Bool(false))])
+            Tree::obj_from(vec![("a".into(), Tree::Num(Num::U(1))), (k, Tree::Arr(vec![Tree::Num(Num::U(2)), Tree::Str("x".into())])), ("z".into(), Tree::Bool(false))])
         }
         4 => {
             // big nested container in the middle of siblings
             let inner = Tree::Arr((0..n_small).map(|i| Tree::Num(Num::U(i as u64 * 1000))).collect());
-            Tree::Obj(vec![("a".into(), Tree::Str("before".into())), ("b".into(), inner), ("c".into(), Tree::Str("after".into()))])
+            Tree::obj_from(vec![("a".into(), Tree::Str("before".into())), ("b".into(), inner), ("c".into(), Tree::Str("after".into()))])
         }
         _ => {
             let s: String = std::iter::repeat('é').take(n_small).collect();
